@@ -18,6 +18,8 @@ pub struct UnionMut<'a, P, L, R> {
     // Safety: table_l must be distinct from table_r
     table_r: &'a Table<P, R>,
     nodes: Vec<UnionIndex>,
+    // The iterator hands out `&'a mut L` and `&'a mut R`; make the auto traits follow.
+    marker: std::marker::PhantomData<(&'a mut L, &'a mut R)>,
 }
 
 impl<'a, P, L, R> UnionMut<'a, P, L, R> {
@@ -34,6 +36,7 @@ impl<'a, P, L, R> UnionMut<'a, P, L, R> {
             table_l,
             table_r,
             nodes,
+            marker: std::marker::PhantomData,
         }
     }
 }
